@@ -307,6 +307,32 @@ impl<'tcx> Cx<'tcx> {
                         }
                         Const::Unevaluated(uv, _) => {
                             v.push(("uneval", J::s(self.path(uv.def))));
+                            // a promoted constant (`&"0"`, `&Sign::Neg`): export the one literal its body wraps, so that a
+                            // comparison against it can be read like a comparison against the literal itself
+                            if let Some(idx) = uv.promoted {
+                                if let Some(ld) = uv.def.as_local() {
+                                    let proms = self.tcx.promoted_mir(ld.to_def_id());
+                                    if let Some(pb) = proms.get(idx) {
+                                        let mut lits: Vec<String> = Vec::new();
+                                        for bbd in pb.basic_blocks.iter() {
+                                            for st in bbd.statements.iter() {
+                                                if let StatementKind::Assign(bx) = &st.kind {
+                                                    if let Rvalue::Use(Operand::Constant(pc), ..) = &bx.1 {
+                                                        if let Const::Val(..) = pc.const_ {
+                                                            let mut t = format!("{}", pc.const_);
+                                                            t.truncate(120);
+                                                            lits.push(t);
+                                                        }
+                                                    }
+                                                }
+                                            }
+                                        }
+                                        if lits.len() == 1 {
+                                            v.push(("ptxt", J::S(lits.pop().unwrap())));
+                                        }
+                                    }
+                                }
+                            }
                             if ty.is_integral() || ty.is_bool() {
                                 let env = TypingEnv::post_analysis(self.tcx, owner.to_def_id());
                                 if uv.args.is_empty() {
